@@ -10,3 +10,4 @@ EXPLANATION = (
 UNDECIDED = "the exhaustive interleaving claim (model checking is a different family); atomicity of AtomicCell::swap and Condvar semantics are trusted."
 ASSUMPTIONS = ["crossbeam AtomicCell::swap is atomic", "Mutex/Condvar semantics", "io::copy copies to end of stream"]
 OBLIGATIONS = [K.MAILBOX, K.WRITER_WRITE, K.WRITER_UPDATE, K.WRITER_DROP, K.CONSUMER, K.STAGING_TYPES, K.HANDOVER]
+OBLIGATIONS = OBLIGATIONS + [K.WITNESSES]
